@@ -27,13 +27,13 @@ var accepted = map[string][]string{
 	"C02": {"iter", "snapiter", "txiter", "panic"},
 	"C03": {"snapget", "snapiter", "iter", "txiter", "snap", "snap-unstable", "panic"},
 	"C04": {"open", "scan", "get", "iter", "snapget", "snapiter", "txget", "txiter", "write-err", "compact-err", "panic", "hang", "tx-open", "tx-commit"},
-	"C05": {"lin", "monotonic", "txiter", "panic"},
+	"C05": {"lin", "monotonic", "txiter", "snap", "panic"},
 	"C06": {"lsm", "panic"},
 	"C07": {"remove-live", "read-removed", "files-residue", "space", "iter", "panic"},
 	"C08": {"get", "scan", "iter", "snapget", "snapiter", "txget", "txiter", "open", "panic"},
 	"C09": {"hang", "close-twice", "panic"},
 	"C10": {"wgroup", "lin", "arg-modified", "hang", "panic"},
-	"C11": {"txget", "txiter", "get", "scan", "iter", "open", "files-residue", "tx-open", "tx-commit", "write-err", "lin", "hang", "panic"},
+	"C11": {"txget", "txiter", "get", "scan", "iter", "open", "snap", "files-residue", "tx-open", "tx-commit", "write-err", "lin", "hang", "panic"},
 	"C12": {"journal", "panic"},
 	"C13": {"table", "panic"},
 	"C14": {"memdb", "panic", "hang"},
